@@ -202,6 +202,7 @@ package catalog
 //@   property C03,C05
 //@   requires catInv(c)
 //@   modifies fields(c.Tags), c.Tags.data[:], c.Tags.order[:]
+//@   ghost c.gFailed := ite(result != nil, old(c.gFailed) + 1, old(c.gFailed))
 //@   ensures[C03,@duplicate-tag] imp(old(has(c.Tags.data, TagName(name))), result != nil && len(c.Tags.order) == old(len(c.Tags.order)))
 //@   ensures[C03,C05] imp(!old(has(c.Tags.data, TagName(name))), result == nil && has(c.Tags.data, TagName(name)) && c.Tags.data[TagName(name)] != nil
 //@       && c.Tags.data[TagName(name)].Name == TagName(name))
@@ -213,6 +214,7 @@ package catalog
 //@   property C03,C05
 //@   requires catInv(c)
 //@   modifies allfield(Tag, Description), c.Tags.data[:]
+//@   ghost c.gFailed := ite(result != nil, old(c.gFailed) + 1, old(c.gFailed))
 //@   ensures[C05,@tag-object-kept] forall(q, TagName, has(c.Tags.data, q) == old(has(c.Tags.data, q)) && imp(has(c.Tags.data, q), c.Tags.data[q] == old(c.Tags.data[q])))
 //@   ensures[C03,@duplicate-tag-description] imp(old(has(c.Tags.data, TagName(name)) && c.Tags.data[TagName(name)].Description != nil), result != nil)
 //@   ensures[C03,@unknown-tag] imp(!old(has(c.Tags.data, TagName(name))), result != nil)
@@ -222,6 +224,7 @@ package catalog
 //@   property C03,C05
 //@   requires catInv(c)
 //@   modifies fields(c.Servers), c.Servers.data[:], c.Servers.order[:]
+//@   ghost c.gFailed := ite(result != nil, old(c.gFailed) + 1, old(c.gFailed))
 //@   ensures[C03,@duplicate-server] imp(old(has(c.Servers.data, name)), result != nil && len(c.Servers.order) == old(len(c.Servers.order)))
 //@   ensures[C03,C05] imp(!old(has(c.Servers.data, name)), result == nil && has(c.Servers.data, name) && c.Servers.data[name] != nil)
 //@   ensures catInv(c)
@@ -230,6 +233,7 @@ package catalog
 //@   property C03,C05
 //@   requires c != nil
 //@   modifies c.JSightVersion
+//@   ghost c.gFailed := ite(result != nil, old(c.gFailed) + 1, old(c.gFailed))
 //@   ensures[C03,@jsight-repeated] imp(old(c.JSightVersion) != "", result != nil && c.JSightVersion == old(c.JSightVersion))
 //@   ensures[C03,C05] imp(old(c.JSightVersion) == "", result == nil && c.JSightVersion == version)
 
@@ -237,6 +241,7 @@ package catalog
 //@   property C03
 //@   requires c != nil
 //@   modifies c.Info
+//@   ghost c.gFailed := ite(result != nil, old(c.gFailed) + 1, old(c.gFailed))
 //@   ensures[C03,@info-repeated] imp(old(c.Info) != nil, result != nil && c.Info == old(c.Info))
 //@   ensures imp(old(c.Info) == nil, result == nil && c.Info != nil && fresh(c.Info) && c.Info.Title == "" && c.Info.Version == "" && c.Info.Description == nil)
 
@@ -244,6 +249,7 @@ package catalog
 //@   property C03,C01
 //@   requires[C01,C03] c != nil && c.Info != nil
 //@   modifies c.Info.Title
+//@   ghost c.gFailed := ite(result != nil, old(c.gFailed) + 1, old(c.gFailed))
 //@   ensures[C03,@title-repeated] imp(old(c.Info.Title) != "", result != nil && c.Info.Title == old(c.Info.Title))
 //@   ensures imp(old(c.Info.Title) == "", result == nil && c.Info.Title == name)
 
@@ -251,6 +257,7 @@ package catalog
 //@   property C03,C01
 //@   requires[C01,C03] c != nil && c.Info != nil
 //@   modifies c.Info.Version
+//@   ghost c.gFailed := ite(result != nil, old(c.gFailed) + 1, old(c.gFailed))
 //@   ensures[C03,@version-repeated] imp(old(c.Info.Version) != "", result != nil && c.Info.Version == old(c.Info.Version))
 //@   ensures imp(old(c.Info.Version) == "", result == nil && c.Info.Version == version)
 
@@ -258,6 +265,7 @@ package catalog
 //@   property C03,C01
 //@   requires[C01,C03] c != nil && c.Info != nil
 //@   modifies c.Info.Description
+//@   ghost c.gFailed := ite(result != nil, old(c.gFailed) + 1, old(c.gFailed))
 //@   ensures[C03,@description-repeated] imp(old(c.Info.Description) != nil, result != nil && c.Info.Description == old(c.Info.Description))
 //@   ensures imp(old(c.Info.Description) == nil, result == nil && c.Info.Description != nil)
 
@@ -265,6 +273,7 @@ package catalog
 //@   property C03,C01
 //@   requires catInv(c) && forall(k, string, imp(has(c.Servers.data, k), c.Servers.data[k] != nil))
 //@   modifies allfield(Server, BaseUrl)
+//@   ghost c.gFailed := ite(result != nil, old(c.gFailed) + 1, old(c.gFailed))
 //@   ensures[C03,@unknown-server] imp(!has(c.Servers.data, serverName), result != nil)
 //@   ensures[C03,@baseurl-repeated] imp(has(c.Servers.data, serverName) && old(c.Servers.data[serverName].BaseUrl) != "", result != nil && c.Servers.data[serverName].BaseUrl == old(c.Servers.data[serverName].BaseUrl))
 //@   ensures imp(has(c.Servers.data, serverName) && old(c.Servers.data[serverName].BaseUrl) == "", result == nil && c.Servers.data[serverName].BaseUrl == path)
@@ -366,3 +375,98 @@ package catalog
 //@   attr assumesafe
 //@   requires uut != nil && catalogUserTypes != nil
 //@   modifies[C16,@inherited-children-are-copies] allfield(ExchangeContent, Children), compileMod(0)
+
+// ---------------------------------------------------------------------------
+// The remaining catalog setters, as the per-directive handlers of core see them (C03). Assumed (attr trusted): a setter
+// writes catalog objects only - directives and files keep their values - and gFailed counts its failures; the setters that
+// build the located error themselves locate it at the directive they were given.
+//@ pred errAtKeyword(e *jerr.JApiError, f *fs.File, b bytes.Index) := e != nil && e.File == f && e.Index == b
+//@ func (*Catalog).AddHTTPMethod(c, d)
+//@   attr trusted
+//@   requires c != nil
+//@   modifies anything
+//@   keeps directive.Directive, fs.File, core.JApiCore
+//@   ghost c.gFailed := ite(result != nil, old(c.gFailed) + 1, old(c.gFailed))
+//@   ensures imp(result != nil, result.File == d.keywordCoords.file || (d.BodyCoords.file != nil && result.File == d.BodyCoords.file))
+//@ func (*Catalog).AddDescriptionToHTTPMethod(c, d, text)
+//@   attr trusted
+//@   requires c != nil
+//@   modifies anything
+//@   keeps directive.Directive, fs.File, core.JApiCore
+//@   ghost c.gFailed := ite(result != nil, old(c.gFailed) + 1, old(c.gFailed))
+//@ func (*Catalog).AddDescriptionToJsonRpcMethod(c, d, text)
+//@   attr trusted
+//@   requires c != nil
+//@   modifies anything
+//@   keeps directive.Directive, fs.File, core.JApiCore
+//@   ghost c.gFailed := ite(result != nil, old(c.gFailed) + 1, old(c.gFailed))
+//@ func (*Catalog).AddQueryToCurrentMethod(c, d, q)
+//@   attr trusted
+//@   requires c != nil
+//@   modifies anything
+//@   keeps directive.Directive, fs.File, core.JApiCore
+//@   ghost c.gFailed := ite(result != nil, old(c.gFailed) + 1, old(c.gFailed))
+//@ func (*Catalog).AddResponse(c, code, annotation, d)
+//@   attr trusted
+//@   requires c != nil
+//@   modifies anything
+//@   keeps directive.Directive, fs.File, core.JApiCore
+//@   ghost c.gFailed := ite(result != nil, old(c.gFailed) + 1, old(c.gFailed))
+//@ func (*Catalog).AddResponseBody(c, schemaBytes, bodyFormat, sn, d, tt, rr)
+//@   attr trusted
+//@   requires c != nil
+//@   modifies anything
+//@   keeps directive.Directive, fs.File, core.JApiCore
+//@   ghost c.gFailed := ite(result != nil, old(c.gFailed) + 1, old(c.gFailed))
+//@   ensures imp(result != nil, result.File == d.keywordCoords.file || (d.BodyCoords.file != nil && result.File == d.BodyCoords.file))
+//@ func (*Catalog).AddResponseHeaders(c, s, d)
+//@   attr trusted
+//@   requires c != nil
+//@   modifies anything
+//@   keeps directive.Directive, fs.File, core.JApiCore
+//@   ghost c.gFailed := ite(result != nil, old(c.gFailed) + 1, old(c.gFailed))
+//@ func (*Catalog).AddType(c, d, tt)
+//@   attr trusted
+//@   requires c != nil
+//@   modifies anything
+//@   keeps directive.Directive, fs.File, core.JApiCore
+//@   ghost c.gFailed := ite(result != nil, old(c.gFailed) + 1, old(c.gFailed))
+//@   ensures imp(result != nil, result.File == d.keywordCoords.file || (d.BodyCoords.file != nil && result.File == d.BodyCoords.file))
+//@ func (*Catalog).AddRequestHeaders(c, s, d)
+//@   attr trusted
+//@   requires c != nil
+//@   modifies anything
+//@   keeps directive.Directive, fs.File, core.JApiCore
+//@   ghost c.gFailed := ite(result != nil, old(c.gFailed) + 1, old(c.gFailed))
+//@ func (*Catalog).AddJsonRpcMethod(c, d)
+//@   attr trusted
+//@   requires c != nil
+//@   modifies anything
+//@   keeps directive.Directive, fs.File, core.JApiCore
+//@   ghost c.gFailed := ite(result != nil, old(c.gFailed) + 1, old(c.gFailed))
+//@   ensures imp(result != nil, result.File == d.keywordCoords.file || (d.BodyCoords.file != nil && result.File == d.BodyCoords.file))
+//@ func (*Catalog).AddJsonRpcParams(c, s, d)
+//@   attr trusted
+//@   requires c != nil
+//@   modifies anything
+//@   keeps directive.Directive, fs.File, core.JApiCore
+//@   ghost c.gFailed := ite(result != nil, old(c.gFailed) + 1, old(c.gFailed))
+//@ func (*Catalog).AddJsonRpcResult(c, s, d)
+//@   attr trusted
+//@   requires c != nil
+//@   modifies anything
+//@   keeps directive.Directive, fs.File, core.JApiCore
+//@   ghost c.gFailed := ite(result != nil, old(c.gFailed) + 1, old(c.gFailed))
+//@ func (*Catalog).AddOperationID(c, d, id)
+//@   attr trusted
+//@   requires c != nil
+//@   modifies anything
+//@   keeps directive.Directive, fs.File, core.JApiCore
+//@   ghost c.gFailed := ite(result != nil, old(c.gFailed) + 1, old(c.gFailed))
+//@ func (*Catalog).AddEnum(c, d, e)
+//@   attr trusted
+//@   requires c != nil && d != nil
+//@   modifies anything
+//@   keeps directive.Directive, fs.File, core.JApiCore
+//@   ghost c.gFailed := ite(result != nil, old(c.gFailed) + 1, old(c.gFailed))
+//@   ensures imp(result != nil, result.File == d.keywordCoords.file || (d.BodyCoords.file != nil && result.File == d.BodyCoords.file))
